@@ -206,10 +206,36 @@ def gen_family_history(rng, tag, writer):
     return {'kind': 'history', 'family': True, 'sets': sets, 'cfgs': cfgs, 'ops': ops}
 
 
+def gen_level_probe(rng, tag, writer):
+    """One layout attached at caption level, then ONLY at set level, then ONLY at language level, on one writer
+    object and on fresh ones: whatever a write remembers about a layout (a region id, a transformed copy) - on
+    the writer or anywhere in the process - shows when the layout comes back at another level."""
+    L = {'origin': [[rng.choice([10.0, 12.5, 20.0]), '%'], [rng.choice([5.0, 10.0, 25.0]), '%']],
+         'extent': [[40.0, '%'], [20.0, '%']], 'padding': None, 'alignment': rng.choice([None, ['left', 'top']])}
+    sets = []
+    for level in ('caption', 'set', 'lang', 'none'):
+        caps = [{'start': (k + 1) * 2000000, 'end': (k + 1) * 2000000 + 1500000,
+                 'nodes': [['t', f'{tag}.{level}.{k} words']], 'style': None,
+                 'layout': copy.deepcopy(L) if level == 'caption' else None} for k in range(2)]
+        sets.append({'langs': [{'lang': 'en', 'layout': copy.deepcopy(L) if level == 'lang' else None,
+                                'captions': caps}],
+                     'styles': None, 'layout': copy.deepcopy(L) if level == 'set' else None})
+    opts = {}
+    if writer != 'LegacyDFXPWriter':
+        opts = {'relativize': True, 'fit_to_screen': rng.random() < 0.5, 'video_width': 640, 'video_height': 360}
+    order = [0, 1, 2, 3, 1, 0, 2]
+    ops = [{'cfg': 0, 'set': k, 'kw': {}, 'fresh': i >= 4 and rng.random() < 0.5} for i, k in enumerate(order)]
+    return {'kind': 'history', 'family': True, 'sets': sets, 'cfgs': [{'writer': writer, 'opts': opts}], 'ops': ops}
+
+
 def cases(ctx):
     rng = ctx.rng('c09')
     if ctx.shard == 0:
         yield {'kind': 'suite'}
+    for k, writer in enumerate(ALL_WRITERS):
+        if writer != 'SCCWriter':
+            # in every shard: the state a shard process has accumulated differs from shard to shard
+            yield gen_level_probe(rng, f'L{ctx.shard}.{k}', writer)
     for k, writer in enumerate(ALL_WRITERS):
         if ctx.mine(k * 17 + 5):
             yield gen_raise_probe(rng, f'R{ctx.shard}.{k}', writer)
